@@ -22,6 +22,22 @@ CLAIMED = {
                             "an oracle on random real states, not proved."),
         technique="Lean 4 proof over traced definitions (field_simp/ring/linarith) + implementation oracle",
         design="5/C11"),
+    "C01": dict(
+        text=("Lean theorems, for all temperatures, wall temperatures, pin/coolant powers, film coefficients, "
+              "properties, flow split, geometry symbols and step sizes, that on complete 7- and 19-pin bundles "
+              "(both wire directions, low-flow approximation on/off) the mass-flow-weighted enthalpy change computed "
+              "by the real interior update equals the code's own power + duct-wall tallies, that the tallied power "
+              "equals the pin + coolant heat generated, and that conduction/mixing/swirl exchange sums to zero; the "
+              "same for the bypass gap of a double-duct bundle.  The expressions are obtained on every run by "
+              "symbolic execution of the real methods.  Other ring counts, low-fidelity and multi-region assemblies, "
+              "and the mixed-mean carry-over are decided by driving real reactors plane by plane."),
+        note=COMMON_NOTE + ("T1b symbolic execution (whole-bundle); hypotheses of the theorems: 6*q_interior = 1 for "
+                            "the pin-to-subchannel fraction literal 0.166666666666667 (defect 2e-15), equal swirl "
+                            "velocity for edge and corner cells (checked on real regions), positive divisors.  "
+                            "Partial: ring counts > 3 rely on the per-step oracle (and on C08's table certificates); "
+                            "the O(dz) property-lag clause for temperature-dependent coolants is not a theorem."),
+        technique="Lean 4 proof (field_simp/ring) over symbolically traced whole-bundle update + per-step reactor oracle",
+        design="5/C01"),
     "C04": dict(
         text=("For each of the 26 neighbour-type classes of interior and bypass subchannels (with and without the "
               "low-flow approximation, both swirl-donor positions) a Lean theorem, over any ordered field and all "
